@@ -44,8 +44,8 @@ def HexSrc.falsy : HexSrc → Bool
 
 /-- `load_hex_string` for a `source` that is not the name of an existing file.
     Result `none` = `random_bytes(expected_size)` (the value is not determined).
-    A negative `int` source is outside the model: the implementation does not terminate there
-    (`get_bytes_cnt_of_int` loops forever); the model answers `.error .other`. -/
+    A negative `int` source is refused with an SPSDK error (`get_bytes_cnt_of_int` raises since fix 55a6c57;
+    before it the call never returned). -/
 def loadHexString (src : HexSrc) (n : Int) : PyRes (Option Bytes) :=
   if src.falsy then (if n < 0 then .error .other else .ok none)
   else if n < 1 then .error .spsdk
@@ -53,7 +53,7 @@ def loadHexString (src : HexSrc) (n : Int) : PyRes (Option Bytes) :=
     | .none => .ok none
     | .bytes b => if (b.length : Int) = n then .ok (some b) else .error .spsdk   -- unchanged, size enforced
     | .int v =>
-      if v < 0 then .error .other
+      if v < 0 then .error .spsdk
       else (match valueToBytes v.toNat true n.toNat false with
             | .error e => .error e
             | .ok b => .ok (some b))
